@@ -111,7 +111,7 @@ int main(int argc, char **argv) {
     auto &S = vshim::S();
     j.unum("regions", S.regions).unum("for_regions", S.for_regions).unum("reduce_regions", S.reduce_regions).unum("leaves", S.leaves).unum("runs", S.runs).unum("joins", S.joins)
      .unum("joins_nonidentity_nonidentity", S.join_nn).unum("joins_nonidentity_identity", S.join_ni).unum("joins_identity_identity", S.join_ii).unum("joins_unclassified", S.join_unclassified)
-     .unum("split_regions", S.split_regions).unum("multi_run_regions", S.multi_run_regions).unum("empty_regions", S.empty_regions).unum("distinct_schedule_shapes", S.shapes.size()).unum("concurrent_push_backs", S.pushbacks.load());
+     .unum("split_regions", S.split_regions).unum("multi_run_regions", S.multi_run_regions).unum("empty_regions", S.empty_regions).unum("distinct_schedule_shapes_summed_over_processes", S.shapes.size()).unum("distinct_schedule_shapes_in_one_process_max", S.shapes.size()).unum("concurrent_push_backs", S.pushbacks.load());
 #endif
     emit_summary(j.done());
     return 0;
